@@ -369,8 +369,12 @@ pub fn decode_bad(bytes: &[u8], tier: Tier) -> Option<Program> {
 }
 
 pub fn judge(good: &Program, bad: &Program, defect: &Defect, d: Dialect) -> Result<bool, Viol> {
-    // precondition: the repaired twin compiles
-    if compile(good, d).is_err() {
+    // precondition: the repaired twin compiles (phase 1: running out of time here is not about
+    // ill-scoped programs; C14 and C01 own hangs on well-scoped input)
+    crate::worker::set_phase(1);
+    let good_ok = compile(good, d).is_ok();
+    crate::worker::set_phase(2);
+    if !good_ok {
         return Ok(false);
     }
     let bad_text = render_program(bad, Some(d));
@@ -537,6 +541,9 @@ impl Prop for C10Prop {
         let kind = c.weighted(&[5, 3, 3, 3]);
         let (bad, defect) = inject(&mut c, &case.prog, kind)?;
         Some(json!({"source": render_program(&bad, Some(Dialect::Cl23)), "defect": defect.kind, "site": defect.site}))
+    }
+    fn timeout_exempt_phase(&self) -> Option<u32> {
+        Some(1)
     }
     fn case_timeout(&self) -> (u64, bool) {
         (40, true)
